@@ -30,9 +30,10 @@ VARIABLES cfg,     \* [mode |-> "split"|"low"|"ctcp", kind |-> "msg"|"notice", u
           text,    \* code points
           phase,   \* "build" | "sent" | "quoted"
           stream,  \* octets written
+          lines,   \* the octets written, cut after every LF (kept in the state so that it is evaluated once)
           err,     \* the call raised
           q, back  \* quoted text, dequoted text
-vars == <<cfg, text, phase, stream, err, q, back>>
+vars == <<cfg, text, phase, stream, lines, err, q, back>>
 
 -----------------------------------------------------------------------------
 RECURSIVE Flat(_)
@@ -68,16 +69,16 @@ LineOK(c, L, checklen) ==
                 /\ IsPrefix(Enc(Fmt(c)), SubSeq(L, 1, Len(L) - 2))
 Part(c, L) == SubSeq(L, Len(Enc(Fmt(c))) + 1, Len(L) - 2)
 
-\* checklen = FALSE drops the octet-limit clause (used only to classify a rejection, never for a verdict)
-RelX(c, t, s, checklen) == LET ls == Lines(s) IN
+\* checklen = FALSE drops the octet-limit clause (used only to classify a rejection, never for a verdict).
+\* ls must be Lines(s); it is passed in evaluated (a state variable) because TLC re-evaluates LET bodies at every use.
+RelX(c, t, ls, checklen) ==
                 /\ \A i \in 1..Len(ls) : LineOK(c, ls[i], checklen)
                 /\ NonWs(Flat([i \in 1..Len(ls) |-> Part(c, ls[i])])) = NonWs(Enc(t))
 
 Unsat(c, t) == \E i \in 1..Len(t) : t[i] \notin WS /\ W(t[i]) > Avail(c)
-Rel(c, t, s) == RelX(c, t, s, TRUE)
-AcceptsX(c, t, s, e, checklen) == IF e THEN s = <<>> /\ (NonWs(Enc(t)) = <<>> \/ Unsat(c, t))
-                                       ELSE RelX(c, t, s, checklen)
-Accepts(c, t, s, e) == AcceptsX(c, t, s, e, TRUE)
+AcceptsX(c, t, ls, e, checklen) == IF e THEN ls = <<>> /\ (NonWs(Enc(t)) = <<>> \/ Unsat(c, t))
+                                        ELSE RelX(c, t, ls, checklen)
+Accepts(c, t, ls, e) == AcceptsX(c, t, ls, e, TRUE)
 
 (* ---- splitters (exhaustive run only): width "octets" or "chars" ---- *)
 Wd(ch, wm) == IF wm = "octets" THEN W(ch) ELSE 1
@@ -117,32 +118,32 @@ RefDequote(kind, s) == Deq(kind, s, 1)
 Forbidden(kind) == IF kind = "low" THEN {NUL, LF, CR} ELSE {XD}
 
 -----------------------------------------------------------------------------
-InitWith(c) == /\ cfg = c /\ text = <<>> /\ phase = "build" /\ stream = <<>> /\ err = FALSE
+InitWith(c) == /\ cfg = c /\ text = <<>> /\ phase = "build" /\ stream = <<>> /\ lines = <<>> /\ err = FALSE
                /\ q = <<>> /\ back = <<>>
 
 Extend(sym) == /\ phase = "build" /\ text' = Append(text, sym)
-               /\ UNCHANGED <<cfg, phase, stream, err, q, back>>
+               /\ UNCHANGED <<cfg, phase, stream, lines, err, q, back>>
 
 SendPack  == /\ phase = "build" /\ cfg.mode = "split" /\ Fits(cfg, text, "octets")
-             /\ stream' = Render(cfg, SplitPack(text, Avail(cfg), "octets")) /\ err' = FALSE /\ phase' = "sent"
+             /\ stream' = Render(cfg, SplitPack(text, Avail(cfg), "octets")) /\ lines' = Lines(stream') /\ err' = FALSE /\ phase' = "sent"
              /\ UNCHANGED <<cfg, text, q, back>>
 SendWords == /\ phase = "build" /\ cfg.mode = "split" /\ Fits(cfg, text, "octets")
-             /\ stream' = Render(cfg, SplitWords(text, Avail(cfg), "octets")) /\ err' = FALSE /\ phase' = "sent"
+             /\ stream' = Render(cfg, SplitWords(text, Avail(cfg), "octets")) /\ lines' = Lines(stream') /\ err' = FALSE /\ phase' = "sent"
              /\ UNCHANGED <<cfg, text, q, back>>
 SendRefuse == /\ phase = "build" /\ cfg.mode = "split" /\ ~Fits(cfg, text, "octets")
-              /\ stream' = <<>> /\ err' = TRUE /\ phase' = "sent"
+              /\ stream' = <<>> /\ lines' = <<>> /\ err' = TRUE /\ phase' = "sent"
               /\ UNCHANGED <<cfg, text, q, back>>
 \* control: the same word splitter counting characters instead of octets
 SendCharCount == /\ phase = "build" /\ cfg.mode = "chars" /\ Fits(cfg, text, "chars")
-                 /\ stream' = Render(cfg, SplitWords(text, Avail(cfg), "chars")) /\ err' = FALSE /\ phase' = "sent"
+                 /\ stream' = Render(cfg, SplitWords(text, Avail(cfg), "chars")) /\ lines' = Lines(stream') /\ err' = FALSE /\ phase' = "sent"
                  /\ UNCHANGED <<cfg, text, q, back>>
 
 DoQuote == /\ phase = "build" /\ cfg.mode \in {"low", "ctcp"}
            /\ q' = RefQuote(cfg.mode, text) /\ back' = RefDequote(cfg.mode, RefQuote(cfg.mode, text))
            /\ phase' = "quoted"
-           /\ UNCHANGED <<cfg, text, stream, err>>
+           /\ UNCHANGED <<cfg, text, stream, lines, err>>
 
-SplitOK     == phase = "sent" => Accepts(cfg, text, stream, err)
+SplitOK     == phase = "sent" => (lines = Lines(stream) /\ Accepts(cfg, text, lines, err))
 QuoteOK     == phase = "quoted" => back = text
 QuoteClean  == phase = "quoted" => \A i \in 1..Len(q) : q[i] \notin Forbidden(cfg.mode)
 =============================================================================
